@@ -12,9 +12,14 @@ import (
 	"sync"
 	"time"
 
+	"github.com/alecthomas/participle/v2"
 	"github.com/alecthomas/participle/v2/ebnf"
 	"github.com/alecthomas/participle/v2/lexer"
 )
+
+type mappedGrammar struct {
+	Words []string `@(Ident | String | Int)*`
+}
 
 func init() {
 	commands["conc-replay"] = concReplay
@@ -307,6 +312,23 @@ func concStress(args []string) error {
 			in := in
 			jobs = append(jobs, job{"generated:" + in, func() string { return lexString(gen, in) }})
 		}
+	}
+	// a parser with several catch-all mappers and per-type mappers on two token types
+	idm := func(t lexer.Token) (lexer.Token, error) { return t, nil }
+	mapped, merr := participle.Build[mappedGrammar](participle.Map(idm), participle.Map(idm), participle.Map(idm),
+		participle.Upper("Ident"), participle.Unquote("String"), participle.Map(func(t lexer.Token) (lexer.Token, error) { t.Value = "<" + t.Value + ">"; return t, nil }, "Int"))
+	if merr != nil {
+		return merr
+	}
+	for _, in := range []string{`abc "x y" 12 def`, `"q" "r" zz 7 8 9`, `a b c d e f g`, `1 2 3 "s"`} {
+		in := in
+		jobs = append(jobs, job{"mapped:" + in, func() string {
+			v, err := mapped.ParseString("", in)
+			if err != nil {
+				return "err " + err.Error()
+			}
+			return strings.Join(v.Words, "|")
+		}})
 	}
 	ebnfText := "A = \"a\" B* | ~<ident> (?= \"x\") .\nB = (\"b\" | A)+ ."
 	jobs = append(jobs, job{"ebnf", func() string {
